@@ -126,7 +126,10 @@ class Gen:
                     r["_sources"] = {"file.txt": "content of %s\n" % nm, "sub/other.txt": "other\n"}
                 else:
                     r["checkoutDeterministic"] = True
-                    r["checkoutScript"] = 'echo "checkout %s" > co.txt\n' % nm
+                    # restartable like the other generated scripts: Bob runs a changed checkout script again in the
+                    # workspace as it is (sources are never pruned), so the script removes what an edited version of
+                    # itself may have left behind
+                    r["checkoutScript"] = 'rm -f co-edited-*.txt edited-*.txt\necho "checkout %s" > co.txt\n' % nm
                     if envn:
                         # the checkout consumes a variable: its value is part of the checkout's Variant-Id only
                         # (no rng call: the random streams of all users of this generator stay as they were)
